@@ -18,6 +18,45 @@ def leg(name, engine, runs, **kw):
 
 
 PLANS = {
+    'C07': {
+        'quick': [
+            leg('X', 'X', 40, opts={'ops': 10, 'p_model': 0.3}, weight=16,
+                max_workers=16, selftest=2, timeout=1700),
+        ],
+        'thorough': [
+            leg('X', 'X', 400, opts={'ops': 12, 'p_model': 0.35}, weight=16,
+                max_workers=16, selftest=4, timeout=3400, deadline=3500),
+        ],
+        'rule': (
+            'Each evaluation is one seeded simulated run: a drawn (z,x,y) mesh '
+            '(or padded unsharded layout), grid, layout knobs, level set and a '
+            'sequence of operations (transforms, derivatives, cumulative sums, '
+            'einsums, filters, implicit/explicit terms, whole filtered steps) '
+            'executed sharded and unsharded on the same data. Non-trivial = at '
+            'least one operation produced a comparable result on a mesh with '
+            'more than one device (or a padded layout); distinct = distinct '
+            '(mesh, grid, knobs, operation-with-arguments) signature, data '
+            'seeds excluded. Rejected operations count neither as coverage nor '
+            'as violations.'),
+        'real_vs_stub': {
+            'real': ['all dinosaur code', 'jax shard_map / GSPMD / XLA CPU '
+                     'collectives on 8 host-platform virtual devices (engine X)',
+                     'per-device jaxpr evaluation of shard_map bodies (engine S)'],
+            'stub': ['engine X: devices are XLA host-platform virtual devices; '
+                     'thread interleaving is XLA\'s (verified bit-stable by the '
+                     'digest self-test)',
+                     'engine S: collectives, transport and device scheduling '
+                     'are the simulator\'s; fori_loop is unrolled; code between '
+                     'shard_map regions runs on one device'],
+        },
+        'assumptions': [
+            'float64 (jax_enable_x64) comparisons at 1e-9 relative to '
+            'max(|reference|, |input|); measured sharded-vs-unsharded gap 2e-16',
+            'inputs are admissible: masked, zero padding',
+            'documented rejections: odd ring axis > 1 (ValueError axis_size '
+            'must be 1 or even), indivisible sharded cumsum axis',
+        ],
+    },
     'C14': {
         'quick': [
             leg('K', 'K', 96, opts={'cases': 10}, weight=3, selftest=3),
